@@ -19,7 +19,9 @@ from vf.zoo import vec
 
 ID = "C19"
 LEVEL = "exploration"
-BUDGET = {"quick": 12800, "thorough": 128000}
+BUDGET = {"quick": 32000, "thorough": 320000}
+# coverage-guided phase (atheris drives the same strategy through fuzz_one_input; thorough tier only)
+FUZZ = {"quick": 0, "thorough": 320000, "include": ['mici.matrices']}
 RULE = (
     "Hypothesis draws an expression tree (all classes/options, depth <= 2, size 1-5), a history of 4-25 "
     "operations (requests of T, inv, sqrt, eigval, eigvec, factor, lu_and_piv, capacitance_matrix, hash, array, "
